@@ -324,8 +324,8 @@ pub fn execute_with(case: &CaseA, en: &En, obs: &mut Obs, mapper: &mut dyn Stepp
       }
     }
 
-    // ---- C04 (layouts without absorbing)
-    if en.c04 && !has_abs {
+    // ---- C04 (all layouts: the statement does not exclude absorbing ones)
+    if en.c04 {
       if let RefOutcome::Fired(i) = &ro {
         let m = &l.mappings[*i];
         if key_producing(m) {
